@@ -28,7 +28,8 @@ Definition same_slots (a b : neg) : Prop :=
 
 Lemma create_offer_slots n id : same_slots (fst (create_offer n id)) n.
 Proof.
-  unfold create_offer, same_slots; destruct (closed n) eqn:Ec; cbn; repeat split; auto.
+  unfold create_offer, same_slots; destruct (closed n) eqn:Ec; [cbn; repeat split; auto|].
+  match goal with |- context [if ?c then _ else _] => destruct c end; cbn; repeat split; auto.
 Qed.
 
 Lemma create_answer_slots n id sn : same_slots (fst (create_answer n id sn)) n.
